@@ -325,6 +325,7 @@ impl Run {
             });
             return vec![];
         }
+        let t_fam = Instant::now();
         let (r, done) = self.par_for(name, total, init, f, describe);
         self.add_family(FamilyCov {
             name: name.to_string(),
@@ -332,7 +333,7 @@ impl Run {
             done,
             exhaustive: done == total,
             note: if done == total {
-                String::new()
+                format!("{:.1}s", t_fam.elapsed().as_secs_f64())
             } else {
                 format!("cut short by the time budget of {} s: indices [0,{}) completed", self.budget_s, done)
             },
@@ -359,6 +360,20 @@ impl Run {
                 unknown.push(v.clone());
             }
         }
+        // order: one violation per distinct kind first, so that the stored replays cover all kinds
+        {
+            let mut seen = BTreeSet::new();
+            let (mut firsts, mut rest): (Vec<Violation>, Vec<Violation>) = (vec![], vec![]);
+            for v in unknown.drain(..) {
+                if seen.insert(v.kind.clone()) {
+                    firsts.push(v)
+                } else {
+                    rest.push(v)
+                }
+            }
+            firsts.extend(rest);
+            unknown = firsts;
+        }
         // if more violations occurred than were stored, the surplus cannot be classified: treat as unknown
         let unstored = total_viol - viols.len() as u64;
         let mut replay_paths = vec![];
@@ -371,7 +386,7 @@ impl Run {
                     let _ = std::fs::remove_file(e.path());
                 }
             }
-            for (i, v) in unknown.iter().take(10).enumerate() {
+            for (i, v) in unknown.iter().take(12).enumerate() {
                 let p = format!("{}/{}.json", dir, i);
                 let rec = json!({"property": self.prop, "kind": v.kind, "message": v.msg, "case": v.case});
                 let _ = std::fs::write(&p, serde_json::to_string_pretty(&rec).unwrap());
